@@ -163,7 +163,7 @@ class MD6(object):
         d,keylen,L,r = self.size,self.keylen,self.L,self.rounds
         V = Bits(d,12)//Bits(keylen,8)//Bits(0,16)//Bits(z,4)//Bits(L,8)//Bits(r,12)//Bits(0,4)
         C = Poly(0,64,dim=16)
-        W = Poly(Q,64,dim=89)//Poly(self.K,64)
+        W = Poly(Q,64)//Poly(self.K,64)
         W.dim = 89
         W[24]  = V
         U = (self.L+1)<<56
